@@ -62,6 +62,9 @@ def specs(tier, seed):
     add("M1", [["e", "E_transrot"]], "E", variant="mol")
     add("M1", [["e", "E_transrot"], ["d", "D_rot"]], "E|D", variant="mol")
     add("M", [["e", "E_transrot"]], "E", variant="mol", depth=dc)
+    add("M", [["e", "E_transrot*2"]], "E*2", variant="mol", depth=dc)
+    add("A2", [["e", "E_trans"]], "E", variant="move-added-after-first-trial", late_add=1)
+    add("A1", [["e", "E_trans"], ["d", "D_ball"]], "E|D", variant="move-added-after-second-trial", late_add=2)
     add("A0", [["e", "E_trans"]], "E", variant="empty-start")
     add("A3", [["e", "E_trans"]], "E", labels=[5, -1, 2], variant="labels-noncontiguous")
     add("A3", [["e", "E_trans"], ["d", "D_ball"]], "E|D", labels=[1, 0, -1], variant="labels-unsorted", depth=dc)
@@ -135,7 +138,20 @@ def task(spec):
             sysm.tsize = len(mc.exchange_atoms)
             sysm.init = _probe(sysm)
 
-        sysm, trials = execute(bspec, ch, depth, policy, probe=_probe, setup=setup)
+        def before_trial(sysm, k, sink):
+            # a label-bearing move added to the table while the simulation is under way
+            if spec.get("late_add") == k:
+                from quansino.moves.displacement import DisplacementMove
+                from quansino.operations.displacement import Ball
+
+                from qv.drive import RecordingCriteria
+
+                mv = DisplacementMove(np.arange(len(sysm.atoms)), Ball(0.2))
+                sysm.mc.add_move(mv, criteria=RecordingCriteria(ChoiceCriteria(ch), sink), name="late")
+                sysm.leaves.append(mv)
+                sysm.entries["late"] = mv
+
+        sysm, trials = execute(bspec, ch, depth, policy, probe=_probe, setup=setup, before_trial=before_trial)
         init, tsize = sysm.init, sysm.tsize
         sysm.close()
         return init, tsize, trials
@@ -182,6 +198,9 @@ def _check_execution(spec, ch, init, tsize, trials, counters, sets):
             return V(f"exception/{t.error['type']}@{t.error['qwhere'] or t.error['where']}", f"trial of {t.name} raised {t.error['type']}: {t.error['msg']}")
         pre, post = t.extra_pre, t.extra_post
         u0, u1 = pre["uid"], post["uid"]
+        for mi, lab in enumerate(pre["labels"]):
+            if mi >= len(label0):  # a move added under way: its user-supplied labels are its initial ones
+                label0.append(dict(zip(u0.tolist(), lab.tolist())))
         removed = set(u0.tolist()) - set(u1.tolist())
         added = [u for u in u1.tolist() if u not in set(u0.tolist())]
         if t.verdict is not True and (removed or added):
@@ -224,6 +243,8 @@ def _check_execution(spec, ch, init, tsize, trials, counters, sets):
         if post["nex"] != nex:
             return V("counter", f"number_of_exchange_particles is {post['nex']}, model says {nex}")
         for mi, lab in enumerate(post["labels"]):
+            if mi >= len(label0):
+                continue
             if len(lab) != n:
                 return V("labels-length", f"a move carries {len(lab)} labels for {n} atoms")
             by_uid = dict(zip(u1.tolist(), lab.tolist()))
@@ -231,6 +252,8 @@ def _check_execution(spec, ch, init, tsize, trials, counters, sets):
                 if u in by_uid and by_uid[u] != l0:
                     return V("initial-label-moved", f"an initial atom's label changed from {l0} to {by_uid[u]}: labels no longer aligned with atoms")
             for p in new_particles:
+                if mi < len(label0) and all(u in label0[mi] for u in p):
+                    continue  # present when this move was added: covered by the initial-label clause
                 ls = {by_uid[u] for u in p}
                 if len(ls) != 1:
                     return V("particle-split", f"the atoms of one inserted particle carry labels {sorted(ls)}")
